@@ -8,14 +8,15 @@ open PyTRS.Obj PyTRS.Plss
 /-- provenance: the i-th tract built by `construct_tracts` records the complete original text, the parent's source
     tag, its zero-based creation position and the trs string it was given (for every engine outcome: the specs are
     arbitrary) -/
-theorem C09_provenance (uid0 : Nat) (hd : Str) (pq : Bool) (src : OptStr) (text : Str) :
+theorem C09_provenance (uid0 : Nat) (hd : Str) (pq : Bool) (src : OptStr) (text : Str)
+    (look : Option Str → TRS.TrsDict) :
     ∀ (specs : List (Str × Str × Bool)) (idx : Nat) (ts : List TractObj),
-      buildTracts uid0 hd pq src text idx specs = .ok ts →
+      buildTracts uid0 hd pq src text look idx specs = .ok ts →
       ts.length = specs.length ∧
       ∀ i (h : i < ts.length) (h' : i < specs.length),
         (ts[i]).origIndex = ((idx + i : Nat) : Int) ∧ (ts[i]).origDesc = some text ∧ (ts[i]).source = src
           ∧ (ts[i]).uid = uid0 + idx + i ∧ (ts[i]).desc = (specs[i]).1
-          ∧ (ts[i]).trs = TRS.trsToDict (some (specs[i]).2.1) := by
+          ∧ (ts[i]).trs = look (some (specs[i]).2.1) := by
   intro specs
   induction specs with
   | nil =>
@@ -34,7 +35,7 @@ theorem C09_provenance (uid0 : Nat) (hd : Str) (pq : Bool) (src : OptStr) (text 
       · cases h
       · rename_i ts' hts
         cases h
-        have hp := tractInit_prov _ _ _ _ _ _ _ _ _ ht
+        have hp := tractInit_prov _ _ _ _ _ _ _ _ _ _ ht
         obtain ⟨hlen, hrest⟩ := ih (idx + 1) ts' hts
         refine ⟨by simp [hlen], ?_⟩
         intro i h1 h2
@@ -56,7 +57,7 @@ theorem C09_provenance (uid0 : Nat) (hd : Str) (pq : Bool) (src : OptStr) (text 
 theorem C09_attributes_decompose (uid : Nat) (desc : Str) (trs : Option Str) (cfg : CfgArg) (pq : Option Bool)
     (src od : OptStr) (oi : Int) (t : TractObj) (h : tractInit uid desc trs cfg pq src od oi = .ok t) :
     t.trs = TRS.trsToDict trs ∧ t.trs.trs = t.trs.twp ++ t.trs.rge ++ (t.trs.sec.getD (S "None")) := by
-  have hp := tractInit_prov _ _ _ _ _ _ _ _ _ h
+  have hp := tractInit_prov _ _ _ _ _ _ _ _ _ _ h
   simp only [prov, Prod.mk.injEq] at hp
   refine ⟨hp.2.1, ?_⟩
   rw [hp.2.1]
